@@ -111,7 +111,14 @@ fn run_plain(cx: &mut Ctx, s: &Schema, t: &Table, db: &mut Db, rows_sx: &str, q:
     if k % 3 == 0 {
         variants.push((Some(vac_where(k / 3, t.rows.len())), Some(VAC_HAVING[(k / 3 + 2) % VAC_HAVING.len()])));
     }
+    // the engine evaluates even an uncorrelated WHERE subquery once per row: on tables of more than
+    // 200 rows only every 8th statement gets the WHERE variants (HAVING variants cost one evaluation per group)
+    let big = t.rows.len() > 200;
     for (w, h) in variants {
+        let huge = t.rows.len() >= 1000;
+        if (big && w.is_some() && k % (if huge { 32 } else { 8 }) != 0) || (huge && w.is_none() && k % 4 != 0) {
+            continue;
+        }
         let sql2 = q.sql_with(s, w, h);
         columnar(true);
         let t0 = std::time::Instant::now();
@@ -216,9 +223,14 @@ fn run_grouped(cx: &mut Ctx, s: &Schema, t: &Table, db: &mut Db, rows_sx: &str, 
         let with_having = format!("{}{} GROUP BY {} HAVING {}", sel, base_where, key_name, VAC_HAVING[k % VAC_HAVING.len()]);
         conj.push(vac_where(k + 2, t.rows.len()).to_string());
         let with_both = format!("{} WHERE {} GROUP BY {} HAVING COUNT(*) >= 0 AND {}", sel, conj.join(" AND "), key_name, VAC_HAVING[(k + 1) % VAC_HAVING.len()]);
-        let mut list = vec![with_where, with_having];
-        if k % 3 == 0 {
-            list.push(with_both);
+        let big = t.rows.len() > 200;
+        let huge = t.rows.len() >= 1000;
+        let mut list = if huge && k % 4 != 0 { vec![] } else { vec![with_having] };
+        if !big || k % (if huge { 32 } else { 8 }) == 0 {
+            list.push(with_where);
+            if k % 3 == 0 {
+                list.push(with_both);
+            }
         }
         for sql2 in list {
             columnar(true);
